@@ -55,6 +55,14 @@ class World:
         return eng
 
 
+def flat_events(evs):
+    for e in evs:
+        if e[0] == 'merged-branch-events':
+            yield from flat_events(e[1])
+        else:
+            yield e
+
+
 def zint(x):
     return z3.IntVal(x) if isinstance(x, int) else x
 
@@ -163,6 +171,23 @@ class Ob:
             # treated as feasible (must still be proved), but does not count as a witness
             return None
         return False
+
+    def no_panic(self, eng, r, hyps, label='no reachable panic / silent wrap inside the stated domain', kinds=('may_panic', 'wrapping_mul', 'wrapping_div'), timeout=30000):
+        """every recorded panic / wrap condition of this path is unreachable under hyps"""
+        evs = [e for e in flat_events(r['events']) if e[0] in kinds and len(e) > 2]
+        for e in evs:
+            s = z3.Solver(); s.set('timeout', timeout)
+            for a in eng.ex.assumptions: s.add(a)
+            for h in hyps: s.add(h)
+            s.add(e[2])
+            t = time.time(); res = s.check(); self.solver_s += time.time() - t; self.queries += 1
+            if res == z3.unsat: self.unsat += 1
+            elif res == z3.sat:
+                self.sat += 1
+                self.cex.append({'ob': self.oid, 'label': f'{label}: {e[0]} {e[1]}', 'role': 'panic:' + e[1][:40], 'model': model_dict(s.model()), 'replay': None})
+            else:
+                self.unknown += 1; self.notes.append(f'UNKNOWN {label} {e[1]}')
+        return len(evs)
 
     def need_witness(self, label=''):
         if self.witness_sat == 0:
